@@ -659,6 +659,99 @@ Proof.
     rewrite H. destruct (go l s). reflexivity.
 Qed.
 
+(* ------------------------------------------------------------------ the step lemma *)
+Lemma set_task_est_none t a b c d e f g s :
+  set_task t (mkTask None a b c d e f g) (est s) = est (set_task t (mkTask None a b c d e f g) s).
+Proof. exact (set_task_est t (mkTask None a b c d e f g) s). Qed.
+Lemma set_task_est_some t k a b c d e f g s :
+  set_task t (mkTask (Some (fun o => erase (k o))) a b c d e f g) (est s) = est (set_task t (mkTask (Some k) a b c d e f g) s).
+Proof. exact (set_task_est t (mkTask (Some k) a b c d e f g) s). Qed.
+Lemma put_est_lazy h o o' s : put h (mkFut o (KLazy o')) (est s) = est (put h (mkFut o (KLazy o')) s).
+Proof. exact (put_est h (mkFut o (KLazy o')) s). Qed.
+Lemma drop_sb_est s : drop_sb (est s) = est (drop_sb s).
+Proof. unfold drop_sb. cbn [tasks est]. destruct (tasks s); reflexivity. Qed.
+Lemma with_active_est s a : with_active (est s) a = est (with_active s a). Proof. reflexivity. Qed.
+Lemma look_est s r : look (est s) r = look s r.
+Proof. destruct r; [apply outcome_of_est|reflexivity]. Qed.
+Lemma unwrap_look_est s y : unwrap (look (est s)) y = unwrap (look s) y.
+Proof. apply unwrap_ext. intros r _. apply look_est. Qed.
+Lemma is_blocked_est tk s : is_blocked (etask tk) (est s) = is_blocked tk s.
+Proof.
+  unfold is_blocked. cbn [tk_deps etask]. induction (tk_deps tk) as [|d l IH]; [reflexivity|].
+  cbn [existsb]. rewrite computed_est, IH. reflexivity.
+Qed.
+Lemma filter_computed_est l s : filter (fun d => negb (computed d (est s))) l = filter (fun d => negb (computed d s)) l.
+Proof. induction l as [|d l IH]; [reflexivity|]. cbn [filter]. rewrite computed_est, IH. reflexivity. Qed.
+
+Global Hint Rewrite set_task_est_none set_task_est_some put_est_lazy drop_sb_est with_active_est unwrap_look_est is_blocked_est
+  filter_computed_est enter_ctx_est exit_ctx_est complete_task_est accept_error_est resume_contexts_est pause_contexts_est
+  flush_batch_est continue_with_batch_est schedule_batch_est : est.
+
+Definition is_readm (m : mode) : bool := match m with MRun _ (ReadVar _ _) => true | _ => false end.
+
+Lemma step_est P c : is_readm (c_mode c) = false -> step P (ecfg c) = ecfg (step P c).
+Proof.
+  destruct c as [m fr s]. unfold ecfg at 1. cbn [c_mode c_frames c_st]. intros Hr.
+  destruct m as [h| | | |t|t p| |o|e|o|]; cbn [emode].
+  - (* MValue *) cbn [step c_mode c_frames c_st]. autorewrite with est. destruct (computed h s); [reflexivity|].
+    destruct (get h s) as [[o [tk|kind idx key a|o'|]]|]; cbn [option_map efut f_kind f_out ekind]; try reflexivity.
+    + autorewrite with est. reflexivity.
+    + autorewrite with est. reflexivity.
+  - (* MWaitHead *) cbn [step c_mode c_frames c_st]. destruct fr as [|[|t k|root|i|t old] fr']; cbn [map eframe]; try reflexivity.
+    autorewrite with est. destruct (computed root s); reflexivity.
+  - (* MAfterExec *) cbn [step c_mode c_frames c_st]. destruct fr as [|[|t k|root|i|t old] fr']; cbn [map eframe]; try reflexivity.
+    autorewrite with est. destruct (computed root s); reflexivity.
+  - (* MExecLoop *) cbn [step c_mode c_frames c_st]. destruct fr as [|[|t k|root|i|t old] fr']; cbn [map eframe]; try reflexivity.
+    change (tasks (est s)) with (tasks s).
+    destruct (Nat.leb (length (tasks s)) i); [reflexivity|].
+    destruct (Z.ltb (p_maxstack P) (Z.of_nat (length (tasks s)))); [reflexivity|].
+    destruct (tasks s) as [|x rest] eqn:Et; [reflexivity|].
+    rewrite computed_est. destruct (computed x s); [reflexivity|].
+    rewrite get_est. destruct (get x s) as [[o [tk|kind idx key a|o'|]]|]; cbn [option_map efut f_kind f_out ekind]; try reflexivity.
+    + rewrite is_blocked_est. destruct (is_blocked tk s).
+      * rewrite tk_ds_etask. destruct (tk_ds tk).
+        -- autorewrite with est. reflexivity.
+        -- autorewrite with est.
+           destruct (get_task x (resume_contexts x (set_task x (tk_set_ds tk true) s))) as [tk1|]; cbn [option_map];
+             autorewrite with est; reflexivity.
+      * autorewrite with est. destruct (computed x (resume_contexts x s)); reflexivity.
+    + autorewrite with est. reflexivity.
+    + autorewrite with est. reflexivity.
+  - (* MResume *) cbn [step c_mode c_frames c_st]. rewrite get_task_est.
+    destruct (get_task t s) as [tk|]; cbn [option_map]; [|reflexivity].
+    change (tk_last (etask tk)) with (tk_last tk). rewrite unwrap_look_est.
+    change (tk_gen (etask tk)) with (egen (tk_gen tk)).
+    destruct (tk_gen tk) as [k|]; cbn [egen].
+    + rewrite set_task_est_some. reflexivity.
+    + destruct (unwrap (look s) (tk_last tk)) as [v|e].
+      * rewrite computed_est. destruct (computed t s); [reflexivity|]. rewrite complete_task_est. reflexivity.
+      * rewrite accept_error_est. reflexivity.
+  - (* MRun *) destruct p as [v|v|e|y k|f k|h k|c k|c k|var k|k]; cbn [erase]; cbn [step c_mode c_frames c_st].
+    + rewrite get_task_est. destruct (get_task t s) as [tk|]; cbn [option_map]; autorewrite with est.
+      * destruct (computed t _); [reflexivity|]. autorewrite with est. reflexivity.
+      * destruct (computed t s); [reflexivity|]. autorewrite with est. reflexivity.
+    + rewrite get_task_est. destruct (get_task t s) as [tk|]; cbn [option_map]; autorewrite with est.
+      * destruct (computed t _); [reflexivity|]. autorewrite with est. reflexivity.
+      * destruct (computed t s); [reflexivity|]. autorewrite with est. reflexivity.
+    + rewrite get_task_est. destruct (get_task t s) as [tk|]; cbn [option_map]; autorewrite with est; reflexivity.
+    + rewrite inst_est. destruct (inst t y s) as [y' s1]. cbn [fst snd].
+      rewrite get_task_est. destruct (get_task t s1) as [tk|]; cbn [option_map]; [|reflexivity].
+      rewrite set_task_est_some. destruct (futs (extract y')); reflexivity.
+    + rewrite create_est. destruct (create t f s) as [h s1]. reflexivity.
+    + reflexivity.
+    + rewrite enter_ctx_est. reflexivity.
+    + rewrite exit_ctx_est. reflexivity.
+    + discriminate Hr.
+    + reflexivity.
+  - (* MContRet *) cbn [step c_mode c_frames c_st]. destruct fr as [|[|t k|root|i|t old] fr']; cbn [map eframe]; try reflexivity.
+    rewrite with_active_est, get_task_est. destruct (get_task t (with_active s old)) as [tk|]; cbn [option_map];
+      autorewrite with est; reflexivity.
+  - (* MDeliver *) cbn [step c_mode c_frames c_st]. destruct fr as [|[|t k|root|i|t old] fr']; cbn [map eframe]; reflexivity.
+  - (* MUnwind *) cbn [step c_mode c_frames c_st]. destruct fr as [|[|t k|root|i|t old] fr']; cbn [map eframe]; reflexivity.
+  - reflexivity.
+  - reflexivity.
+Qed.
+
 Lemma erase_covered p : rtree0 p -> wnr [] p -> tree (erase p) /\ wn [] (erase p).
 Proof. intros H1 H2. split; [apply tree_erase; exact H1|apply wn_erase; exact H2]. Qed.
 
